@@ -45,11 +45,15 @@ def context_now():
 
 
 class Disp:
-    def __init__(self, i, enter, exit_, log):
-        self.i, self.enter, self.exit_, self.log = i, enter, exit_, log
+    def __init__(self, i, enter, exit_, log, spawner=None):
+        self.i, self.enter, self.exit_, self.log, self.spawner = i, enter, exit_, log, spawner
 
     async def __aenter__(self):
         self.log.append(("enter-start", self.i))
+        if self.enter == "spawner":            # a disposable that starts a background task of the scope while entering
+            self.spawner()
+            self.log.append(("entered", self.i))
+            return None
         if self.enter.startswith("slow"):
             await asyncio.sleep(1.0)
         if self.enter.endswith("fail"):
@@ -109,7 +113,8 @@ def run_scenario(disps, body, spawned, cancel_at, outer_state=True):
         async def block():
             obs["before"] = context_now()
             try:
-                async with ctx.scope("inner", A(v=1), disposables=[Disp(i, e, x, log) for i, (e, x) in enumerate(disps)]):
+                async with ctx.scope("inner", A(v=1), disposables=[Disp(i, e, x, log, lambda: obs["tasks"].append(ctx.spawn(child, "block")))
+                                                                 for i, (e, x) in enumerate(disps)]):
                     log.append(("body-start",))
                     obs["inner_seen"] = (ctx.state(A).v, [d for d in ()])
                     try:
@@ -161,6 +166,7 @@ def run_scenario(disps, body, spawned, cancel_at, outer_state=True):
             obs["task_end"] = "finished"
         except asyncio.CancelledError:
             obs["task_end"] = "cancelled"
+            obs["task_end_time"] = loop.time()
         except BaseException as e:  # noqa
             obs["task_end"] = ("error", e)
         for x in obs["tasks"]:
@@ -183,12 +189,25 @@ def scenarios(level=1):
     dsets = [[]] + [[(e, x)] for e in enters for x in exits] + \
         [[("state", "ok"), ("fail", "ok")], [("slow-state", "ok"), ("fail", "ok")], [("state", "fail"), ("none", "fail")],
          [("state", "slow-ok"), ("none", "fail")], [("states", "ok"), ("state", "ok")], [("state", "ok"), ("slow-fail", "ok")],
-         [("none", "fail"), ("state", "slow-fail")], [("none", "slow-fail"), ("none", "fail"), ("none", "slow-ok")]]
+         [("none", "fail"), ("state", "slow-fail")], [("none", "slow-fail"), ("none", "fail"), ("none", "slow-ok")],
+         [("spawner", "ok"), ("slow-state", "ok")], [("spawner", "ok"), ("slow-fail", "ok")], [("spawner", "ok"), ("fail", "ok")]]
+    cancels = (None, 0.5, 1.2, 1.7, 2.6, 5.5)
+    spawn_sets = [[], ["done"], ["block"], ["fail", "block"], ["respawn"], ["fail", "respawn"]]
+    if level >= 3:
+        # thorough tier: every pair of disposables, three and four at once, denser cancellation instants (all the
+        # suspension points of enter / body / exit fall between them), up to four spawned tasks
+        import random as _r
+        rng = _r.Random(int(os.environ.get("VERIF_SEED", "0") or 0))
+        kinds = [(e, x) for e in enters for x in exits]
+        dsets = dsets + [[a, b] for a in kinds for b in kinds if rng.random() < 0.25] + \
+            [[rng.choice(kinds) for _ in range(n)] for n in (3, 3, 3, 4, 4, 4) for _ in range(12)]
+        cancels = (None, 0.0, 0.25, 0.5, 0.75, 1.0, 1.2, 1.5, 1.7, 2.0, 2.25, 2.6, 3.0, 3.5, 5.5)
+        spawn_sets = spawn_sets + [["done", "done", "block"], ["fail", "done", "block", "block"], ["block", "respawn", "fail"]]
     for ds in dsets:
         for body in ("return", "raise", "base", "sleep"):
-            for spawned in ([[], ["done"], ["block"], ["fail", "block"], ["respawn"], ["fail", "respawn"]] +
+            for spawned in (spawn_sets +
                             ([["failcancel"]] if os.environ.get("C07_CHECK_FAILING_MEMBER") == "1" else [])):
-                for cancel_at in (None, 0.5, 1.2, 1.7, 2.6, 5.5):
+                for cancel_at in cancels:
                     if body != "sleep" and cancel_at is not None and cancel_at > 3.0:
                         continue
                     if level < 2 and len(ds) > 1 and spawned and cancel_at not in (None, 1.7):
